@@ -1146,3 +1146,8 @@ for _p in ("C09", "C14", "C01"):
 _U79 = " Growth bookkeeping, unbounded over the number of queued tables (Verus): trigger_reindex puts the index that filled up at the back of the queue, leaves the progress of the migration under way alone and continues on a fresh index one bit larger; drop_index removes a table only if it is the one at the front of the queue, removes its file and resets the progress counter so that the next table is migrated from its first chunk; any other id changes nothing."
 for _p in ("C09", "C14"):
     PROPS[_p]["claim"] = PROPS[_p]["claim"] + _U79
+
+# ---------------------------------------------------------------- U74 extension: refresh_metadata
+UNIT_META["free_list"]["functions"] = UNIT_META["free_list"]["functions"] + ["table::ValueTable::refresh_metadata"]
+UNIT_META["free_list"]["assumes"] = UNIT_META["free_list"]["assumes"] + ["refresh_metadata: `self.file.map.read().is_none()` and `self.file.read_at(&mut header.0, 0)` are contracts (is the file mapped; the 16 header bytes at offset 0); Header::{last_removed, filled} decode them (Kani U5)"]
+PROPS["C14"]["claim"] = PROPS["C14"]["claim"] + " ValueTable::refresh_metadata (Verus) re-reads the list head and the fill mark from the header on disk whatever they were in memory (a replayed record may have changed either alone) and starts an empty table at slot 1."
